@@ -11,6 +11,7 @@ import (
 	"sync/atomic"
 	"time"
 	"unicode/utf8"
+	c02 "verif/props/c02"
 
 	"golang.org/x/mod/modfile"
 	"golang.org/x/mod/module"
@@ -368,6 +369,40 @@ func Run(r *fw.Run) {
 		})
 	}
 	r.Sample(caseT{Kind: "atoms", Input: strconv.QuoteToASCII("module a.com/m\nrequire ( // d \n\"unterminated")})
+
+	// byte sweep: every byte value and a few other fills in every kind of position (slots shared with C02,
+	// plus directive-shaped files so that the typed parsers and ModulePath get past the first token)
+	{
+		l := fw.NewLocal()
+		slots := append([][2]string{}, c02.SweepSlots...)
+		slots = append(slots, [][2]string{
+			{"module example.com/m", "\n"}, {"module ", "example.com/m\n"}, {"module example.com/m //c", "\n\ngo 1.21\n"}, {"", "module example.com/m\n"},
+			{"module example.com/m\n\nrequire a.com/x v1.0.0 //", "\n"}, {"module example.com/m\n\nrequire a.com/x", " v1.0.0\n"}, {"module example.com/m\n\nrequire (\n\ta.com/x v1.0.0", "\n)\n"},
+			{"module example.com/m\n\nreplace a.com/x => \"../d", "\"\n"}, {"module example.com/m\n\nretract [v1.0.0, v1.1.0] // ", "\n"}, {"go 1.21\n\nuse ./a", "\n"}, {"go 1.21\n\nuse \"./a", "b\"\n"},
+		}...)
+		r.Bounds["byte_sweep_slots"] = len(slots)
+		for _, sl := range slots {
+			for _, f := range c02.SweepFills() {
+				b := []byte(sl[0] + f + sl[1])
+				s := string(b)
+				ws[0].cur.Store(&s)
+				l.States++
+				l.Transitions++
+				l.Execs += 5
+				res := oneInput(b)
+				ws[0].count.Add(1)
+				if res.synOK {
+					l.Nontrivial++
+				}
+				l.Outcomes[fmt.Sprintf("sweep:syntax=%v strict=%v lax=%v work=%v", res.synOK, res.strictOK, res.laxOK, res.workOK)]++
+				if res.msg != "" {
+					report("sweep", b, res)
+				}
+			}
+		}
+		ws[0].cur.Store(nil)
+		r.Merge(l)
+	}
 
 	// generated files and insertions
 	stmts := modgen.ModStmts()
